@@ -20,6 +20,9 @@ import (
 // Two registers with the same descriptor denote "the same value" for the
 // purposes of guard facts and argument rules.
 type D struct {
+	// Deep renders calls to single-block side-effect-free functions of the module
+	// as the expression they return (wrappers and accessors become transparent).
+	Deep bool
 	P *Prog
 	// PhiVal, when non-nil, resolves a phi to the edge taken on the current
 	// path (used by the path enumerator).
@@ -30,6 +33,10 @@ type D struct {
 	// LoadVal, when non-nil, resolves a load of a reassigned local to the value
 	// last stored to it on the current path.
 	LoadVal func(*ssa.UnOp) ssa.Value
+	// AllocAt, when non-nil, gives the value last stored to the whole of a
+	// reassigned struct local before the given load on the path being described
+	// (nil when a field of it was written in between).
+	AllocAt func(*ssa.Alloc, ssa.Instruction) ssa.Value
 	depth   int
 	inLit   map[*ssa.Alloc]bool
 	// Subst renders the listed parameters as the given descriptors (used when a
@@ -258,7 +265,28 @@ func (d *D) load(x *ssa.UnOp) string {
 			return allocName(a) + "@" + x.Name()
 		}
 		return allocName(a)
-	case *ssa.FieldAddr, *ssa.IndexAddr:
+	case *ssa.FieldAddr:
+		if d.AllocAt != nil {
+			// x.f of a struct local assigned as a whole on each branch: the field of
+			// the value this path assigned
+			var fields []string
+			cur := ssa.Value(a)
+			for {
+				fa, ok := cur.(*ssa.FieldAddr)
+				if !ok {
+					break
+				}
+				fields = append([]string{fieldNameOf(fa.X.Type(), fa.Field)}, fields...)
+				cur = fa.X
+			}
+			if al, ok := cur.(*ssa.Alloc); ok && !al.Heap && SingleStore(al) == nil {
+				if sv := d.AllocAt(al, x); sv != nil {
+					return d.Of(sv) + "." + strings.Join(fields, ".")
+				}
+			}
+		}
+		return d.Of(a)
+	case *ssa.IndexAddr:
 		return d.Of(a)
 	case *ssa.FreeVar:
 		// captured variable: when the enclosing function assigns it exactly once
@@ -808,7 +836,7 @@ func ParamName(p *ssa.Parameter) string { return paramName(p) }
 // the caller's terms.
 func (d *D) inlinePure(c *ssa.Call) (string, bool) {
 	h := c.Common().StaticCallee()
-	if h == nil || len(h.Blocks) != 1 || h.Parent() != nil || !d.P.InProd(h) || !IsNewFunc(h) || d.depth > maxDescDepth-2 {
+	if h == nil || len(h.Blocks) != 1 || h.Parent() != nil || !d.P.InProd(h) || (!IsNewFunc(h) && !d.Deep) || d.depth > maxDescDepth-2 {
 		return "", false
 	}
 	var ret *ssa.Return
@@ -816,7 +844,25 @@ func (d *D) inlinePure(c *ssa.Call) (string, bool) {
 		switch x := ins.(type) {
 		case *ssa.Return:
 			ret = x
-		case *ssa.Store, *ssa.MapUpdate, *ssa.Send, *ssa.Go, *ssa.Defer, *ssa.Panic:
+		case *ssa.Store:
+			// the spill of a value parameter into a non-escaping local is not an effect
+			// (nor is building a composite literal in one)
+			addr := x.Addr
+			for {
+				if fa, ok := addr.(*ssa.FieldAddr); ok {
+					addr = fa.X
+					continue
+				}
+				if ia, ok := addr.(*ssa.IndexAddr); ok {
+					addr = ia.X
+					continue
+				}
+				break
+			}
+			if a, ok := addr.(*ssa.Alloc); !ok || a.Heap {
+				return "", false
+			}
+		case *ssa.MapUpdate, *ssa.Send, *ssa.Go, *ssa.Defer, *ssa.Panic:
 			return "", false
 		case *ssa.Call:
 			// only calls that themselves read (accessors / nested new predicates) are fine;
@@ -831,7 +877,7 @@ func (d *D) inlinePure(c *ssa.Call) (string, bool) {
 	if ret == nil || len(ret.Results) != 1 {
 		return "", false
 	}
-	sub := &D{P: d.P, CallIdentity: d.CallIdentity, depth: d.depth + 1, Subst: map[*ssa.Parameter]string{}}
+	sub := &D{P: d.P, CallIdentity: d.CallIdentity, Deep: d.Deep, depth: d.depth + 1, Subst: map[*ssa.Parameter]string{}}
 	for i, q := range h.Params {
 		if i < len(c.Common().Args) {
 			sub.Subst[q] = d.Of(c.Common().Args[i])
@@ -853,7 +899,7 @@ func (d *D) inlinePureCond(c *ssa.Call) (ssa.Value, *D, bool) {
 			ret = r
 		}
 	}
-	sub := &D{P: d.P, CallIdentity: d.CallIdentity, depth: d.depth + 1, Subst: map[*ssa.Parameter]string{}}
+	sub := &D{P: d.P, CallIdentity: d.CallIdentity, Deep: d.Deep, depth: d.depth + 1, Subst: map[*ssa.Parameter]string{}}
 	for i, q := range h.Params {
 		if i < len(c.Common().Args) {
 			sub.Subst[q] = d.Of(c.Common().Args[i])
